@@ -19,7 +19,8 @@ LEAN = ["Ymq.Props.C13"]
 AUDIT = "Ymq.Audit.C13"
 THEOREMS = ["Ymq.C13." + t for t in (
     "cursor_inv small_recovery table_recovery large_table_recovery recycled_clean listed_complete_inv "
-    "listed_complete listed_complete_rehash no_panic cofactor_spec").split()]
+    "listed_complete listed_complete_rehash no_panic no_panic_rehash cofactor_no_panic fbase_new_classes log_sum_bound "
+    "cofactor_spec").split()]
 PROFILES = ["release", "chk"]
 TIMEOUT = 120.0
 HYPOTHESES = [
@@ -29,8 +30,12 @@ HYPOTHESES = [
     "index of the first prime of bit length >= l (checked on FBase::new by the sv_fb stream; proved for the synthetic bases: "
     "FB.ofPrimes_WF), both root tables reduced (r < p, property C12), recycled SieveTable.overflows has its 32 slots (Rust type)",
     "Dividers::{modu16, modi64, divmod_uint} are exact remainders/quotients (property C08: modu16_spec, modi64_spec)",
-    "RootsDistinct (theorem no_panic only): the two roots of every prime >= 32768 differ (the debug assertion of Sieve::new); "
-    "no_panic also assumes a non-empty factor base, nblocks <= 2^17, |start offset| <= 2^62 and fresh tables",
+    "RootsDistinct (no_panic, no_panic_rehash): the two roots of every prime >= 32768 differ (the debug assertion of Sieve::new); "
+    "they also assume a non-empty factor base, nblocks <= 2^17, |start offset| <= 2^62 and RecycledSized: recycled tables come from a "
+    "sieve with the same factor base and number of blocks (the documented requirement of Sieve::new), contents arbitrary",
+    "must_be_prime (cofactor_no_panic): every divisor of the value that is <= maxlarge and divisible by no listed prime is 1 or a prime "
+    "(the code's comment 'Must be prime'; follows from a complete list and maxlarge < maxprime^2); also value != 0, |value| < 2^256, "
+    "listed indices inside the factor base, maxlarge < 2^32",
 ]
 BLOCK = 32768
 NONE = 0xFFFF
@@ -439,6 +444,10 @@ def followup(case, ans):
             t = ans.split(" ")
             return case.line + f" {t[1]},{t[2]}", ans
         return None
+    if case.op == "sv_fb" and " | " in ans:
+        # the idx_by_log loop of FBase::new replayed by the model on the primes the implementation selected
+        ps, ibl = ans.split(" | ")
+        return "sv_fbm " + ps, ibl
     if case.op != "sv" or "K" not in case.tag:
         return None
     sp = split_answer(ans)
@@ -658,9 +667,12 @@ def cases(tier, rng, extended=False):
         yield table_case(rng, True)
     for _ in range(300 * scale):
         yield cof_case(rng)
-    for _ in range(6 * scale):
+    for _ in range(40 * scale):
         n = rng.getrandbits(rng.choice([20, 64, 128, 300])) | 1
-        yield Case(f"sv_fb {n} {rng.choice([8, 40, 100, 2566, 6000])}", k=False, tag="fb")
+        yield Case(f"sv_fb {n} {rng.choice([8, 16, 40, 100, 700, 2566, 3600, 6000, 9000])}", k=False, tag="fb")
+    if not quick:
+        for size in (30000, 120000):
+            yield Case(f"sv_fb {rng.getrandbits(256) | 1} {size}", k=False, tag="fb", timeout=300)
     shapes = ["plain", "partial", "recycle", "rehash"]
     for rep in range(3 * scale):
         for size, dens, lo, nbs, kq in FB_SHAPES:
@@ -784,13 +796,13 @@ MODELLED = [
     "sieve::SieveTable::{new, reset, add, add_overflow, bucket}, SieveTableLarge::{new, reset, add, add_overflow, bucket_offsets}",
     "fbase::cofactor (trial division of the listed primes, size tests, single/double large prime split, the debug assertion through "
     "a model of fbase::certainly_composite on the Montgomery routines of C07)",
+    "fbase::FBase::new: the incremental idx_by_log loop (fbaseIbl), compared with the code on the primes FBase::new selects",
 ]
 UNMODELLED = [
     "sieve.rs: the byte array blk (log accumulation in sieve_block), skipbits, thresholds and the SIMD scan of smooths, i.e. WHICH "
     "positions are reported: positions are an input of the model (taken from the implementation's answer for the comparison)",
-    "no-panic is proved (theorem no_panic) for new with fresh tables, sieve_block/next_block and the factor recovery; for recycled "
-    "tables, rehash and cofactor the theorems are 'whenever the model returns ...' and panic sites are only compared with the code "
-    "(both build profiles)",
+    "the u8 log accumulators are outside the model: log_sum_bound gives the region where they cannot overflow (bitlen(value) + number "
+    "of distinct prime divisors <= 256); beyond it the overflow is reachable (finding reported: 398-bit n, Algo::Qs, checked profile)",
     "Dividers::{modu16, modi64, divmod_uint} are modelled as %, / (property C08); fbase::try_factor64 (Pollard rho / ECM) is a parameter "
     "of the cofactor model (the driver replays the pair returned by the implementation)",
     "memory safety of get_unchecked / transmute((u8,u8)) layouts: the model indexes the same cells and returns `panic` where an index "
@@ -803,12 +815,13 @@ CLAIM = ("Lean theorems, for all factor bases / root tables / block numbers / po
          "added to a bucket table is found by the lookup except for exactly n_overflows - 32 counted losses (large tables: none); "
          "reset hides every stale entry; hence the factor list of ANY position contains every factor-base prime whose root matches, up "
          "to the counted losses of the size classes 16..18 (also after rehash); on valid inputs no panic site of the modelled code is "
-         "reached (no_panic); cofactor's factors multiply back and its cofactor has no "
+         "reached, with fresh or recycled tables, after rehash, and in cofactor (no_panic, no_panic_rehash, cofactor_no_panic); the idx_by_log "
+         "loop of FBase::new yields the class partition the sieve relies on (fbase_new_classes); cofactor's factors multiply back and its cofactor has no "
          "listed prime factor, so it is 1 or has only prime factors above the bound when the list is complete. The model is tied to the "
          "code by differential runs through the public API (cursor hashes, overflow counters, bucket fill, factor lists) in the release "
          "and checked profiles; an independent Python oracle judges every reported position against every factor-base prime.")
 LEVEL_NOTE = ("Trusted: Lean kernel (+propext, Classical.choice, Quot.sound); the hand-written model's correspondence to the Rust code "
-              "(sampled by the harness in both profiles, not proved); Python integers in the oracle. Panic freedom is proved for the "
-              "fresh-table pipeline (no_panic) and otherwise only compared. Which positions are reported is outside the model. Dividers "
+              "(sampled by the harness in both profiles, not proved); Python integers in the oracle. Panic freedom of the modelled code is "
+              "proved (no_panic, no_panic_rehash, cofactor_no_panic) under named hypotheses. Which positions are reported is outside the model. Dividers "
               "routines are taken exact (C08), try_factor64 enters as a named hypothesis.")
 TECHNIQUE = "Lean 4 proof about a hand model + differential correspondence check + spec oracle"
